@@ -85,7 +85,7 @@ def run_batch(worker, prop, tier, seed, batch, nbatch, rundir, timeout_s, racelo
         env["GOTRACEBACK"] = "all"
         env["VERIF_TMP"] = d
         if racelog:
-            env["GORACE"] = "halt_on_error=0 log_path=%s" % os.path.join(racelog, "b%d.s%d" % (batch, seg))
+            env["GORACE"] = "halt_on_error=0 exitcode=0 log_path=%s" % os.path.join(racelog, "b%d.s%d" % (batch, seg))
         def limit():
             if memlimit_mb:
                 import resource
